@@ -260,3 +260,19 @@ add('BURST',
     Rule('X-BURST', 'Cow::Borrowed($e:e)', 'CowTags::Borrowed($e)'),
     Rule('X-BURST', '$a:i > self.threshold', 'f32_gt($a, self.threshold)'),
     Rule('X-BURST', 'Tag::new(0, self.tag.clone(), TagValue::Bool($b:i))', 'bool_tag(&self.tag, $b)'))
+
+# X-HILB (unit hilbert)
+add('HILB',
+    Rule('X-HILB', 'let i = ii.slice();', 'let i = ii.slice();', stmt_start=True),
+    Rule('X-HILB', 'let o = oo.slice();', '', stmt_start=True),
+    Rule('X-HILB', 'o.is_empty()', 'oo.is_empty()'),
+    Rule('X-HILB', 'o.len()', 'oo.len()'),
+    Rule('X-HILB', 'BlockRet::WaitForFunc(Box::new($c:e))', 'BlockRet::Pending'),
+    Rule('X-HILB', 'iv.extend(&self.history);', 'extend_vec(&mut iv, &self.history);', stmt_start=True),
+    Rule('X-HILB', 'iv.extend(i.iter().take($k:e).copied());', 'extend_take(&mut iv, i, $k);', stmt_start=True),
+    Rule('X-HILB', 'iv.extend(i);', 'extend_take(&mut iv, i, i.len());', stmt_start=True),
+    Rule('X-HILB', 'self.history.clone_from_slice(&iv[$a:e..]);', '{ let __hl = self.history.len(); history_from(&mut self.history, __hl, &iv, $a, iv.len()); }', stmt_start=True),
+    Rule('X-HILB', 'use rayon::prelude::*;', '', stmt_start=True),
+    Rule('X-HILB', 'o.par_iter_mut().take($n:e).enumerate().for_each($c:e);', 'hilbert_kernel(&mut oo, &iv, $n, self.ntaps, &self.filter);', stmt_start=True),
+    Rule('X-HILB', 'self.history[..self.ntaps].clone_from_slice(&iv[$a:e..$b:e]);', 'history_from(&mut self.history, self.ntaps, &iv, $a, $b);', stmt_start=True),
+    Rule('X-HILB', '$ts:i.retain(|t| t.pos() < $n:e);', 'retain_tags_before(&mut $ts, $n);', stmt_start=True))
